@@ -400,6 +400,26 @@ func (f *fctx) applyContract(callee *ssa.Function, con *Contract, args []Term, p
 		}
 		f.assume(Implies(preAll, wantBoolE(t)))
 	}
+	// a postcondition `len(rK) == <literal>` makes the result a sequence of statically known length
+	if len(con.Requires) == 0 || true {
+		for _, c := range con.Ensures {
+			for _, cj := range conjuncts(c.Expr) {
+				if b, ok := cj.(*EBinary); ok && b.Op == "==" {
+					if call, ok := b.X.(*ECall); ok && call.Fn == "len" && len(call.Args) == 1 {
+						if id, ok := call.Args[0].(*EIdent); ok {
+							if num, ok := b.Y.(*ENum); ok && num.Int != nil && num.Int.IsInt64() {
+								for i := range res {
+									if id.Name == fmt.Sprintf("r%d", i) || id.Name == callee.Signature.Results().At(i).Name() {
+										f.constLen[res[i].S] = int(num.Int.Int64())
+									}
+								}
+							}
+						}
+					}
+				}
+			}
+		}
+	}
 	// additional cases: their ensures hold for arguments of the case's shape
 	// that satisfy the case's own requires and split ranges
 	for _, cc := range con.Cases {
@@ -541,4 +561,11 @@ func (f *fctx) inlineCallWith(callee *ssa.Function, args []Term, bindings []ssa.
 		}
 	}
 	return res
+}
+
+func conjuncts(e Expr) []Expr {
+	if b, ok := e.(*EBinary); ok && b.Op == "&&" {
+		return append(conjuncts(b.X), conjuncts(b.Y)...)
+	}
+	return []Expr{e}
 }
